@@ -497,9 +497,22 @@ class Interp:
                     len([x for x in self.frames
                          if x.func is not None and x.func.node is node]) >= 2:
                 return self.opaque_call(f.qualname, f, args, kwargs)
+        memo = False
         for d in getattr(f, 'decorators', ()):
+            if 'functools.lru_cache' in d or 'functools.cache' in d:
+                # transparent for one call; the value handed out is shared
+                # by every later call with equal arguments
+                memo = True
+                continue
             self.inexact('function %s is wrapped by decorator %s' % (
                 f.qualname, d))
+        if memo:
+            r = self._call_func_body(f, node, args, kwargs)
+            self.effect('memo', f.qualname, r)
+            return r
+        return self._call_func_body(f, node, args, kwargs)
+
+    def _call_func_body(self, f, node, args, kwargs):
         env = dict(f.closure or {})
         if f.bound is not None:
             args = [f.bound] + list(args)
